@@ -51,6 +51,12 @@ func new(input string) *Lexer {
 
 // ReadChar advances the lexer to the next character in the input.
 func (l *Lexer) ReadChar() {
+	// Already past the last character: stay there, so that the
+	// end-of-input position does not drift
+	if l.readPosition > len(l.input) {
+		return
+	}
+
 	// If the previous character was a newline, reset column
 	if l.CurrentChar == '\n' {
 		l.Line++
@@ -67,6 +73,12 @@ func (l *Lexer) ReadChar() {
 	}
 	l.position = l.readPosition
 	l.readPosition++
+}
+
+// atEOF reports whether the whole input has been consumed.
+// (CurrentChar == 0 alone cannot tell: the input may contain NUL bytes.)
+func (l *Lexer) atEOF() bool {
+	return l.position >= len(l.input)
 }
 
 // PeekChar returns the next character without advancing the lexer position.
@@ -98,7 +110,7 @@ func (l *Lexer) readLeadingComments() {
 			l.ReadChar()
 
 			var comment strings.Builder
-			for l.CurrentChar != '\n' && l.CurrentChar != 0 {
+			for l.CurrentChar != '\n' && !l.atEOF() {
 				comment.WriteByte(l.CurrentChar)
 				l.ReadChar()
 			}
@@ -254,12 +266,17 @@ func (l *Lexer) readString(delimiter byte) string {
 
 	for {
 		l.ReadChar()
-		if l.CurrentChar == 0 {
+		if l.atEOF() {
 			break
 		}
 		// Handle escape sequences
 		if l.CurrentChar == '\\' {
 			l.ReadChar() // Move to the character after backslash
+			if l.atEOF() {
+				// unterminated string ending in a backslash
+				result.WriteByte('\\')
+				break
+			}
 			if l.CurrentChar == 'x' {
 				// Handle hexadecimal escape sequence \xHH
 				hex1 := l.PeekChar()
@@ -399,7 +416,7 @@ func (l *Lexer) readRawString() string {
 	var result strings.Builder
 	for {
 		l.ReadChar()
-		if l.CurrentChar == 0 {
+		if l.atEOF() {
 			break
 		}
 		// Handle escaped backticks
